@@ -40,9 +40,9 @@ ASSUMPTIONS = [
 
 # Candidate-finding classes that the generator steers around so that the search
 # continues behind them. Remove an entry once the defect is fixed in /repo.
-AVOID = {'std-pilot-flag', 'pzx-zero-boundary', 'pzx-empty-data-tail'}
+AVOID = {'std-pilot-flag', 'pzx-zero-boundary', 'pzx-empty-data-tail', 'tail-pop-range'}
 SIG_F12 = 'pzx-data-asym-lastbyte'
-CLASS_IDS = {SIG_F12: 'F12', 'std-pilot-flag': 'F20', 'pzx-zero-boundary': 'F21', 'pzx-empty-data-tail': 'F22'}
+CLASS_IDS = {SIG_F12: 'F12', 'std-pilot-flag': 'F20', 'pzx-zero-boundary': 'F21', 'pzx-empty-data-tail': 'F22', 'tail-pop-range': 'F23'}
 
 
 # ---------------------------------------------------------------------------
@@ -116,8 +116,19 @@ def zero_boundary(played):
     return False
 
 
+def tail_pop_range(played):
+    """The last pulse of the tape is a DATA tail pulse and a later block has data bytes but adds no pulse."""
+    last = None
+    for lvl, d, role, bi in T.segments(played):
+        if d and role != T.PAUSE:
+            last = (role, bi)
+    return last is not None and last[0] == T.TAIL and any(_has_data(b) for b in played[last[1] + 1:])
+
+
 def classes_of(played):
     out = set()
+    if any(b['k'] == 'data' and b['tail'] for b in played) and tail_pop_range(played):
+        out.add('tail-pop-range')
     for b in played:
         k = b['k']
         if in_f12_class(b):
@@ -145,7 +156,7 @@ def known_class(sig, case):
 # ---------------------------------------------------------------------------
 # generators
 # ---------------------------------------------------------------------------
-W = st.one_of(st.sampled_from([0, 1, 2, 100, 855, 1710, 2168, 65535]), st.integers(0, 65535))
+W = st.one_of(st.sampled_from([0, 0, 1, 2, 100, 855, 1710, 2168, 65535]), st.integers(0, 65535))
 PAUSE_MS = st.one_of(st.sampled_from([0, 0, 1, 1000]), st.integers(0, 65535))
 USED = st.integers(1, 8)
 FLAG = st.one_of(st.sampled_from([0, 255]), st.integers(0, 255))
@@ -176,7 +187,8 @@ ARCHIVE = _d(k=st.just('archive'), items=st.lists(st.tuples(st.sampled_from([0, 
 HW = _d(k=st.just('hw'), items=st.lists(st.tuples(st.just(0), st.integers(0, 3), st.integers(0, 3)).map(list), max_size=3))
 SIGNAL = st.one_of(STD, TURBO, TONE, PULSES, PURE, DIRECT, PAUSE, TURBO, PURE)
 LOOP = _d(k=st.just('loop'), n=st.integers(1, 3), body=st.lists(st.one_of(SIGNAL, TEXTB), min_size=1, max_size=3))
-PORTABLE = st.one_of(SIGNAL, SIGNAL, SIGNAL, LOOP, STOP, GROUP, GROUPEND, TEXTB, ARCHIVE, HW)
+MISC = st.one_of(STOP, GROUP, GROUPEND, TEXTB, ARCHIVE, HW)
+PORTABLE = st.sampled_from(['sig'] * 6 + ['loop', 'misc']).flatmap(lambda k: {'sig': SIGNAL, 'loop': LOOP, 'misc': MISC}[k])
 
 DUR31 = st.one_of(W, st.sampled_from([0x7FFF, 0x8000, 0x8001, 0xFFFF, 0x10000, 70000, 0x7FFFFFFF]), st.integers(0, 0x7FFFFFFF))
 PULS = _d(k=st.just('puls'), p=st.lists(st.tuples(st.sampled_from([1, 1, 1, 2, 3, 8, 0x7FFF]), DUR31, st.integers(0, 3)).map(list),
@@ -193,7 +205,9 @@ NDATA = st.builds(lambda lvl, sp, tail, used, data: {'k': 'data', 'level': lvl, 
 PAUS = _d(k=st.just('paus'), level=st.integers(0, 1),
           dur=st.one_of(st.sampled_from([0, 1, 3500, 3500000, 0x7FFFFFFF]), st.integers(0, 0x7FFFFFFF)))
 BRWS = _d(k=st.just('brws'), text=TEXT)
-NATIVE = st.one_of(PULS, NDATA, NDATA, PAUS, BRWS, STOP, SIGNAL)
+NMISC = st.one_of(BRWS, BRWS, STOP)
+NATIVE = st.sampled_from(['data'] * 4 + ['puls', 'puls', 'paus', 'sig', 'sig', 'misc']).flatmap(
+    lambda k: {'data': NDATA, 'puls': PULS, 'paus': PAUS, 'sig': SIGNAL, 'misc': NMISC}[k])
 
 FE = st.one_of(st.sampled_from([0, 0, 0, 1, 7, 100000]), st.integers(0, 1000000))
 POL = st.sampled_from([0, 0, 0, 1, 1, 2, 3])
@@ -226,8 +240,6 @@ def normalise(blocks, zeros, allow=()):
         if k == 'data':
             if 'pzx-empty-data-tail' in avoid and b['nbits'] == 0:
                 b['tail'] = 0
-            if SIG_F12 not in allow and in_f12_class(b):
-                b['nbits'] = 8 * len(b['data'])
     if 'pzx-zero-boundary' in avoid:
         native, _ = T.lower_pzx(blocks)
         if zero_boundary(native):
@@ -235,7 +247,22 @@ def normalise(blocks, zeros, allow=()):
                 if b['k'] == 'data':
                     b['s0'] = [_nz(x) for x in b['s0']]
                     b['s1'] = [_nz(x) for x in b['s1']]
+    return _fix_f12(blocks, allow)
+
+
+def _fix_f12(blocks, allow):
+    if SIG_F12 not in allow:
+        for b in all_blocks(blocks):
+            if in_f12_class(b):
+                b['nbits'] = 8 * len(b['data'])
     return blocks
+
+
+def _avoided(blocks, opt, is48, allow):
+    """Does the tape, as played under the options, fall into a class that the generator steers around?"""
+    native, spans = T.lower_pzx(blocks)
+    played = _play(native, _native_opt(spans, len(native), opt), is48)
+    return bool(classes_of(played) & (AVOID - set(allow)))
 
 
 @st.composite
@@ -250,7 +277,7 @@ def options(draw, n):
 
 @st.composite
 def cases(draw, kind):
-    zeros = draw(st.integers(0, 3)) == 0
+    zeros = draw(st.sampled_from([False, False, True]))
     allow = []
     if kind == 'asym':
         blocks = draw(st.lists(st.one_of(ASYM, ASYM, PULS, PAUS, TONE), min_size=1, max_size=3))
@@ -266,8 +293,17 @@ def cases(draw, kind):
         else:
             blocks = draw(st.lists(NATIVE, min_size=1, max_size=6))
     blocks = normalise(blocks, zeros, allow)
+    opt = draw(options(len(blocks)))
+    is48 = draw(st.booleans())
+    if _avoided(blocks, opt, is48, allow):
+        for b in all_blocks(blocks):
+            if b['k'] == 'data':
+                b['tail'] = 0
+                b['s0'] = [_nz(x) for x in b['s0']]
+                b['s1'] = [_nz(x) for x in b['s1']]
+        _fix_f12(blocks, allow)
     case = {'mode': mode, 'blocks': T.to_json(blocks), 'fe': draw(FE), 'pol': draw(POL),
-            'opt': draw(options(len(blocks))), 'is48': draw(st.booleans()), 'info': draw(st.integers(0, 5)) == 0}
+            'opt': opt, 'is48': is48, 'info': draw(st.sampled_from([False] * 5 + [True]))}
     if allow:
         case['allow'] = allow
     return case
@@ -404,6 +440,11 @@ def judge(fmt, edges, dbs, played, fe, pol):
         durs = [edges[i + 1] - edges[i] for i in range(s, e)]
         if durs:
             durs[0] = edges[s + 1] - t0
+        if durs and edges[e] > t1 and edges[e] == _run_end(wf, t1):
+            # a following block that starts with a zero-length pulse continues the level of this block's
+            # last pulse; skoolkit then moves this block's last edge (the same waveform)
+            durs[-1] -= edges[e] - t1
+            t1 = edges[e]
         popped = bool(tail) and e == last and durs == exp[:-1]
         if durs != exp and not popped:
             raise Violation('data-pulses', '%s: block %d (%d bits, %r/%r, tail %d): edges[%d..%d] give %d pulses, expected %d; '
@@ -419,6 +460,13 @@ def judge(fmt, edges, dbs, played, fe, pol):
                 raise Violation('data-decode', '%s: block %d does not decode back to its bits' % (fmt, bi))
 
 
+def _run_end(wf, t1):
+    """End of the run of constant level that contains the pulse ending at t1."""
+    import bisect
+    i = bisect.bisect_right(wf['steps'], (t1 - 1, 2))
+    return wf['steps'][i][0] if i < len(wf['steps']) else wf['end']
+
+
 def _steps_differ(a, b):
     """Two edge lists as level step-functions over their common duration."""
     end = min(a[-1], b[-1])
@@ -431,7 +479,7 @@ def _classify(v, played_lists, case):
     cls = set()
     for p in played_lists:
         cls |= classes_of(p)
-    for sig in (SIG_F12, 'pzx-zero-boundary', 'pzx-empty-data-tail', 'std-pilot-flag'):
+    for sig in (SIG_F12, 'pzx-zero-boundary', 'pzx-empty-data-tail', 'std-pilot-flag', 'tail-pop-range'):
         if sig in cls and not v.sig.startswith('crash'):
             return Violation(sig, '[%s] %s' % (v.sig, v.msg), case)
     return Violation(v.sig, v.msg, case)
@@ -769,7 +817,7 @@ def plan(tier, seed):
         shards.append({'kind': 'big', 'n': 2 if quick else 12, 'seed': shard_seed(seed, PROPERTY, i)})
         i += 1
     for _ in range(16 if quick else 48):
-        shards.append({'kind': 'hyp', 'n': 260 if quick else 2000, 'seed': shard_seed(seed, PROPERTY, i)})
+        shards.append({'kind': 'hyp', 'n': 320 if quick else 2000, 'seed': shard_seed(seed, PROPERTY, i)})
         i += 1
     for _ in range(2 if quick else 8):
         shards.append({'kind': 'asym', 'n': 150 if quick else 1500, 'seed': shard_seed(seed, PROPERTY, i)})
